@@ -101,7 +101,7 @@ func (h *hSpec) Cond(x *gea.Exec, st *gea.State, e ast.Expr, env *gea.Env) ([]ge
 			a, b = b, a
 			op = core.FlipOp(op)
 		}
-		if a == "c.Incarnation" && x.P.FieldOwner(v.X) != "" && x.P.FieldOwner(v.Y) != "" {
+		if a == "c.Incarnation" {
 			var t gea.Term
 			switch {
 			case b == "rec.Incarnation" && st.Store["@fresh"] == gea.True:
@@ -353,6 +353,9 @@ func (h *hSpec) Call(x *gea.Exec, st *gea.State, call *ast.CallExpr, env *gea.En
 	// functions of the package under analysis, classified by what they do
 	fi := p.ByObj[callee]
 	qn := core.QualName(callee)
+	if fi != nil && fi.Decl.Body != nil && !pinnedFuncs[qn] {
+		return nil, false // a helper introduced after the review: explored in place (inlinePolicy)
+	}
 	switch qn {
 	case "Memberlist.aliveNode", "Memberlist.suspectNode", "Memberlist.deadNode":
 		d := claimFields(x, st, call.Args[0])
@@ -479,6 +482,7 @@ func (c *Ctx) handlerModels() map[string]*handlerModel {
 			spec.recv = p.Info.Defs[fn.Decl.Recv.List[0].Names[0]]
 		}
 		x := gea.New(p, fn.Name, fn.Decl.Type, fn.Decl.Body, spec)
+		x.InlineCallee = c.inlinePolicy
 		if kind == "alive" {
 			// the bootstrap flag is the handler's boolean parameter
 			for _, f := range params {
@@ -501,7 +505,7 @@ func (c *Ctx) handlerModels() map[string]*handlerModel {
 		out[kind] = &handlerModel{kind: kind, fn: fn, x: x, name: fn.Name}
 		// the suspicion-timer closure lives in the suspect handler
 		if kind == "suspect" {
-			ast.Inspect(fn.Decl.Body, func(n ast.Node) bool {
+			inspectFn(fn, func(n ast.Node) bool {
 				fl, ok := n.(*ast.FuncLit)
 				if !ok {
 					return true
@@ -520,6 +524,7 @@ func (c *Ctx) handlerModels() map[string]*handlerModel {
 				if callsDead {
 					ts := &hSpec{c: c, kind: "timer", fn: fn, claim: spec.claim, recv: spec.recv}
 					tx := gea.New(p, fn.Name+"$timer", fl.Type, fl.Body, ts)
+					tx.InlineCallee = c.inlinePolicy
 					tx.Run()
 					if tx.Trunc {
 						fail("exploration of the timer closure exceeded the state limit")
